@@ -5,6 +5,9 @@ import Amqp.Reasm
 
 namespace Amqp.Reasm
 
+/-- the source looks at the abort flag first (regenerated from `ReceiverInner::on_incoming_transfer`) -/
+theorem source_abort_first : abortFirst = true := by decide
+
 /-- a continuation frame that repeats or omits the delivery fields consistently
     with the first frame of the delivery -/
 def Agrees (id : Nat) (tag : Bytes) (fmt : Option Nat) (f : Frame) : Prop :=
@@ -46,7 +49,7 @@ theorem run_middle (id : Nat) (tag : Bytes) (fmt : Option Nat) : ∀ (fs : List 
     obtain ⟨i1, hm1, hp1, hb1⟩ := merge_agrees id tag fmt i f hp ha
     obtain ⟨i2, r1, r2, r3, r4⟩ := run_middle id tag fmt fs i1 hp1 (fun g hg => hall g (by simp [hg]))
     have hstep : step (some i) f = (some i1, .nothing) := by
-      simp [step, ha.2.2.2, hm, hm1]
+      simp [step, source_abort_first, ha.2.2.2, hm, hm1]
     refine ⟨i2, ?_, r2, ?_, ?_⟩
     · simp [run, hstep, r1]
     · rw [r3, hb1]; simp
@@ -70,12 +73,12 @@ theorem reasm_once (id : Nat) (tag : Bytes) (fmt : Option Nat) (first : Frame) (
   let i0 : Inc := { id := first.id, tag := first.tag, fmt := first.fmt, settled := first.settled,
                     buf := [first.payload] }
   have hp0 : Partial id tag fmt i0 := ⟨f1, f2, f3⟩
-  have hstep0 : step none first = (some i0, .nothing) := by simp [step, f4, f5, i0]
+  have hstep0 : step none first = (some i0, .nothing) := by simp [step, source_abort_first, f4, f5, i0]
   obtain ⟨i1, r1, r2, r3, r4⟩ := run_middle id tag fmt mids i0 hp0 hm
   obtain ⟨i2, hm2, hp2, hb2⟩ := merge_agrees id tag fmt i1 last r2 hl.1
   have hlast : step (some i1) last =
       (none, .delivery id tag fmt (i2.settled.getD false) i2.buf.flatten) := by
-    simp [step, hl.1.2.2.2, hl.2, hm2, deliver, hp2.1, hp2.2.1, hp2.2.2]
+    simp [step, source_abort_first, hl.1.2.2.2, hl.2, hm2, deliver, hp2.1, hp2.2.1, hp2.2.2]
   refine ⟨i2.settled.getD false, ?_⟩
   have hrun : ∀ (fs : List Frame) (st : Option Inc) (g : Frame),
       run st (fs ++ [g]) = ((step (run st fs).1 g).1, (run st fs).2 ++ [(step (run st fs).1 g).2]) := by
@@ -94,13 +97,13 @@ theorem reasm_once (id : Nat) (tag : Bytes) (fmt : Option Nat) (first : Frame) (
 theorem single_frame (id : Nat) (tag : Bytes) (f : Frame) (h1 : f.id = some id) (h2 : f.tag = some tag)
     (hm : f.more = false) (ha : f.aborted = false) :
     step none f = (none, .delivery id tag f.fmt (f.settled.getD false) f.payload) := by
-  simp [step, hm, ha, deliver, h1, h2]
+  simp [step, source_abort_first, hm, ha, deliver, h1, h2]
 
 /-- **abort_clean.** An aborted delivery yields nothing and leaves no state behind:
     the next delivery is reassembled as if it were alone. -/
 theorem abort_clean (st : Option Inc) (f : Frame) (h : f.aborted = true) (fs : List Frame) :
     run st (f :: fs) = ((run none fs).1, Out.nothing :: (run none fs).2) := by
-  simp [run, step, h]
+  simp [run, step, source_abort_first, h]
 
 /-- **contradiction_is_error.** A continuation frame whose delivery-id contradicts
     the first frame's never produces a (spliced) delivery. -/
@@ -108,7 +111,19 @@ theorem contradiction_is_error (i : Inc) (f : Frame) (id id' : Nat) (hi : i.id =
     (hf : f.id = some id') (hne : id ≠ id') (ha : f.aborted = false) :
     (step (some i) f).2 = .inconsistent := by
   have : merge i f = none := by simp [merge, hi, hf, orAssign, hne, bind, Option.bind]
-  by_cases hm : f.more = true <;> simp [step, ha, hm, this]
+  by_cases hm : f.more = true <;> simp [step, source_abort_first, ha, hm, this]
+
+/-- the other order is wrong: an abort frame that carries `more` (the flag means nothing on it) would be
+    appended to the delivery under construction, and the next delivery would be merged into the aborted
+    one (what a seeded reordering does) -/
+theorem abort_after_more_disturbs_the_next :
+    (let stepBad : Option Inc → Frame → Option Inc × Out := fun st f =>
+        if f.more then (match st with
+          | some i => (match merge i f with | some i' => (some i', .nothing) | none => (some i, .inconsistent))
+          | none => (some { id := f.id, tag := f.tag, fmt := f.fmt, settled := f.settled, buf := [f.payload] }, .nothing))
+        else if f.aborted then (none, .nothing) else (none, .nothing)
+     (stepBad (some { id := some 1, tag := some [1], fmt := some 0, settled := none, buf := [[7]] })
+        ⟨some 1, none, none, none, true, true, [9, 9]⟩).1.isSome) = true := by decide
 
 /-! ### non-vacuity -/
 example : (run none [⟨some 7, some [1], some 0, none, true, false, [1, 2]⟩,
